@@ -1335,20 +1335,21 @@ pub fn unify(
             )))
         }
 
-        // Concrete union with pattern non-union - pattern must match one variant
+        // Concrete union with pattern non-union - the argument may be any of its variants, so
+        // the pattern must accept every one of them
         (_, Type::Union(variants)) => {
             let variants = variants.clone();
             for &variant in &variants {
                 let mut temp_bindings = bindings.clone();
-                if unify(&mut temp_bindings, pattern_id, variant, program).is_ok() {
-                    *bindings = temp_bindings;
-                    return Ok(());
+                if unify(&mut temp_bindings, pattern_id, variant, program).is_err() {
+                    return Err(Error::TypeUnresolved(format!(
+                        "Cannot unify pattern with concrete union ({} variants)",
+                        variants.len()
+                    )));
                 }
+                *bindings = temp_bindings;
             }
-            Err(Error::TypeUnresolved(format!(
-                "Cannot unify pattern with concrete union ({} variants)",
-                variants.len()
-            )))
+            Ok(())
         }
 
         // All other combinations are incompatible
